@@ -62,6 +62,39 @@ def literal_facts(cfg, node: int) -> dict[str, bool]:
     return out
 
 
+def contradicted_branches(cfg, node: int) -> set[int]:
+    """Branch pseudo-nodes that cannot be taken after ``node`` because they contradict a condition that holds at
+    ``node`` (same normalised text, single literal, the names of the condition not reassigned in the function)."""
+    from gv.astutil import norm_stmt as _ns
+
+    facts = literal_facts(cfg, node)
+    assigned = set()
+    for n_ in cfg.stmt_nodes():
+        st = cfg.ast[n_]
+        if n_ == node or not cfg.reachable(node, n_):
+            continue  # only a re-assignment AFTER the node can change the value of the condition
+        if isinstance(st, (ast.Assign, ast.AugAssign, ast.AnnAssign)):
+            for t in st.targets if isinstance(st, ast.Assign) else [st.target]:
+                for x in ast.walk(t):
+                    if isinstance(x, ast.Name):
+                        assigned.add(x.id)
+    out = set()
+    for (t, v), b in cfg.branch.items():
+        test = getattr(cfg.ast[t], "test", None)
+        if test is None:
+            continue
+        lits = conj_literals(test)
+        if len(lits) != 1:
+            continue
+        pol, e = lits[0]
+        txt = _ns(e)
+        if txt in facts and not ({x.id for x in ast.walk(e) if isinstance(x, ast.Name)} & assigned):
+            holds = facts[txt] == pol  # value of the test
+            if v != holds:
+                out.add(b)
+    return out
+
+
 def store_protocol(ctx: Ctx, prefix: str, which: set[str]) -> None:
     """Ordering facts of ``Database.store``.
 
